@@ -153,6 +153,76 @@ class ModShim:
         return getattr(self._real, name)
 
 
+def origdst_cmsg(fam, dst):
+    """The control message Linux attaches for IP_RECVORIGDSTADDR / IPV6_RECVORIGDSTADDR: the whole
+    sockaddr_in (16 bytes) / sockaddr_in6 (28 bytes) of the original destination."""
+    if fam == 2:
+        return (socket.SOL_IP, 20, struct.pack('=HH', socket.AF_INET, socket.htons(dst[1])) +
+                socket.inet_pton(socket.AF_INET, dst[0]) + bytes(8))
+    flow = dst[2] if len(dst) > 2 else 0
+    scope = dst[3] if len(dst) > 3 else 0
+    return (41, 74, struct.pack('=HH', socket.AF_INET6, socket.htons(dst[1])) + struct.pack('!I', flow) +
+            socket.inet_pton(socket.AF_INET6, dst[0]) + struct.pack('=I', scope))
+
+
+def kernel_ancillary(cmsgs, ancsize):
+    """What Linux put_cmsg() leaves in a control buffer of `ancsize` bytes: items in order; one that
+    does not fit is cut to the room left and MSG_CTRUNC is set; one for which not even a header fits
+    is lost (MSG_CTRUNC).  Compared with real loopback sockets by validate_recvmsg_fake()."""
+    out, flags, room = [], 0, ancsize
+    hdr = socket.CMSG_LEN(0)
+    for (lvl, typ, data) in cmsgs:
+        if room < hdr:
+            flags |= socket.MSG_CTRUNC
+            break
+        if room < socket.CMSG_LEN(len(data)):
+            flags |= socket.MSG_CTRUNC
+            data = data[:room - hdr]
+        out.append((lvl, typ, bytes(data)))
+        room -= min(room, socket.CMSG_SPACE(len(data)))
+    return out, flags
+
+
+def validate_recvmsg_fake(ctx):
+    """The recvmsg() fake against the real kernel: real loopback UDP sockets with
+    IP(V6)_RECVORIGDSTADDR, several control-buffer sizes (incl. the CMSG_SPACE(24) the code offers)
+    and a payload longer than the buffer.  A difference is a correspondence break of the harness;
+    where the sandbox has no such sockets the validation is recorded as skipped."""
+    for fam, lvl, opt, host in ((socket.AF_INET, socket.SOL_IP, 20, '127.0.0.1'), (socket.AF_INET6, 41, 74, '::1')):
+        tag = 'v4' if fam == socket.AF_INET else 'v6'
+        try:
+            r = socket.socket(fam, socket.SOCK_DGRAM)
+            s = socket.socket(fam, socket.SOCK_DGRAM)
+        except OSError:
+            ctx.hist('recvmsg-fake-validation-skipped:' + tag)
+            continue
+        try:
+            r.setsockopt(lvl, opt, 1)
+            r.bind((host, 0))
+            r.settimeout(2)
+            dst = r.getsockname()
+            mine = origdst_cmsg(2 if fam == socket.AF_INET else 10, dst)
+            for n in (0, 8, 16, 17, 24, 27, 28, 40):
+                s.sendto(b'x' * 32, dst[:2])
+                _d, full, _f, _s = r.recvmsg(64, 256)
+                s.sendto(b'x' * 32, dst[:2])
+                d, anc, fl, _s = r.recvmsg(16, socket.CMSG_SPACE(n))
+                fake, ffl = kernel_ancillary([mine], socket.CMSG_SPACE(n))
+                real = [(int(a), int(b), bytes(c)) for a, b, c in anc]
+                whole = [(int(a), int(b), bytes(c)) for a, b, c in full]
+                if whole != [mine] or real != fake or bool(fl & socket.MSG_CTRUNC) != bool(ffl & socket.MSG_CTRUNC) \
+                        or not (fl & socket.MSG_TRUNC) or d != b'x' * 16:
+                    ctx.corr_break('recvmsg-fake', case=dict(family=tag, ancsize=socket.CMSG_SPACE(n)),
+                                   impl=repr((whole, real, fl)), model=repr(([mine], fake, ffl | socket.MSG_TRUNC)),
+                                   note='the harness fake of recvmsg() differs from the kernel')
+            ctx.hist('recvmsg-fake-validated:' + tag)
+        except OSError as e:
+            ctx.hist('recvmsg-fake-validation-skipped:%s:%s' % (tag, errno.errorcode.get(e.errno, e.errno)))
+        finally:
+            r.close()
+            s.close()
+
+
 class FakeListener:
     """One listening datagram socket of a MultiListener."""
 
@@ -170,19 +240,21 @@ class FakeListener:
         src, _dst, data = self.pending
         return data[:n], src
 
-    def recvmsg(self, n, _anc):
+    def recvmsg(self, n, ancsize=0, flags=0):
+        """Like the kernel: the whole control message the kernel has for the datagram (a 16-byte
+        sockaddr_in / 28-byte sockaddr_in6 for IP(V6)_ORIGDSTADDR) is cut to the control buffer the
+        caller offers (MSG_CTRUNC), the payload to `n` (MSG_TRUNC)."""
         src, dst, data = self.pending
-        anc = []
+        full = []
         if dst is not None:
-            if self.fam == 2:
-                cm = struct.pack('=HH', socket.AF_INET, socket.htons(dst[1])) + \
-                    socket.inet_pton(socket.AF_INET, dst[0]) + bytes(8)
-                anc.append((socket.SOL_IP, 20, cm))
-            else:
-                cm = struct.pack('=HH', socket.AF_INET6, socket.htons(dst[1])) + bytes(4) + \
-                    socket.inet_pton(socket.AF_INET6, dst[0]) + bytes(4)
-                anc.append((41, 74, cm))
-        return data[:n], anc, 0, src
+            full.append(origdst_cmsg(self.fam, dst))
+        anc, fl = kernel_ancillary(full, ancsize)
+        if len(data) > n:
+            fl |= socket.MSG_TRUNC
+        self.w.h('recvmsg:v%d:%s' % (4 if self.fam == 2 else 6,
+                                     '+'.join(x for x, b in (('ctrunc', socket.MSG_CTRUNC), ('trunc', socket.MSG_TRUNC))
+                                              if fl & b) or 'whole'))
+        return data[:n], anc, fl, src
 
     def sendto(self, data, addr):
         self.w.emits.append(dict(via=self, fam=self.fam, bound=None, to=tuple(addr), data=bytes(data)))
@@ -1713,6 +1785,7 @@ def minimise(prop, cfg, steps, seed, key, budget=120):
 def run_property(ctx, prop, focus):
     rng = ctx.rng
     logs = []
+    validate_recvmsg_fake(ctx)
     for name, cfg, steps in corpus(focus):
         logs.append(execute('corpus:' + name, cfg, steps, 0))
     cfg, steps = IDREUSE[focus]
